@@ -37,7 +37,10 @@ def parseDecl (j : Json) : Except String Decl := do
            objects := ← (match getOpt j "objects" with
                          | some o => do return some (← ints o)
                          | none => pure none),
-           allowRefs := (getOpt j "refs").bind (·.getBool?.toOption) |>.getD false }
+           allowRefs := (getOpt j "refs").bind (·.getBool?.toOption) |>.getD false,
+           tags := ← (match getOpt j "tags" with
+                      | some o => do return some (← ints o)
+                      | none => pure none) }
 
 def parseTarget (j : Json) : Except String Target := do
   let a ← j.getArr?
@@ -102,7 +105,7 @@ def jVal : OVal → Json
 def kindName : Kind → String
   | .plain => "plain" | .number => "number" | .selector => "selector"
 def slotName : Slot → String
-  | .bounds => "bounds" | .names => "names" | .objects => "objects"
+  | .bounds => "bounds" | .names => "names" | .objects => "objects" | .tags => "tags"
 def jOwner : Owner → Json
   | .cls k => Json.arr #[Json.str "cls", toJson k]
   | .inst i => Json.arr #[Json.str "inst", toJson i]
@@ -132,7 +135,7 @@ def pVal (j : Json) : Except String OVal :=
   | _ => do return .int (← j.getInt?)
 
 def pSlot : String → Except String Slot
-  | "bounds" => pure .bounds | "names" => pure .names | "objects" => pure .objects
+  | "bounds" => pure .bounds | "names" => pure .names | "objects" => pure .objects | "tags" => pure .tags
   | s => throw s!"slot {s}"
 
 def pOwner (j : Json) : Except String Owner := do
